@@ -61,9 +61,9 @@ def check_lpm(rep, F, where, p, T, start, q, fmt, none="None", rules=("R02.1", "
         rep.bad(rules[3], where, "mutates", "%s changes the map" % where, config=F.config)
 
 
-def run_config(ctx, rep, cfg, F):
+def run_config(ctx, rep, cfg, F, funcs=None, floor=400):
     n = 0
-    for short, (fmt, rule) in LPM.items():
+    for short, (fmt, rule) in (funcs if funcs is not None else LPM).items():
         if short not in F.short:
             rep.bad("R02.1", short, "missing", "%s not found" % short, kind="unrecognised", config=cfg)
             continue
@@ -76,7 +76,7 @@ def run_config(ctx, rep, cfg, F):
         for p in C.complete(paths):
             check_lpm(rep, F, short, p, c01.table_of(p), "0", q, fmt)
             n += 1
-    rep.floor("LPM paths checked (%s)" % cfg, n, 400)
+    rep.floor("LPM paths checked (%s)" % cfg, n, floor)
 
 
 def finalize(ctx, rep):
